@@ -191,6 +191,98 @@ def exact_layer_stream(ctx):
         ctx.compare('neox-layer-exact', dict(case, why=why), 'match' if ok else why, 'match')
 
 
+def lowprec_layer_stream(ctx):
+    """half-precision gradients with float32 second-order data: every rank's shard of the sharded layer's result is BITWISE
+    the corresponding shard of what the library's own unsharded KFACEigenLayer computes from the same (scripted) eigen data —
+    both do the whole computation in inv_dtype and round once at the end (C11-mutU cast to the gradient dtype before the
+    back-projection: one bfloat16 ulp off, invisible to any tolerance that allows bfloat16 rounding)"""
+    import torch
+    import simdist
+    neoxsim.stubs()
+    from kfac.distributed import TorchDistributedCommunicator
+    from kfac.gpt_neox.layer import GPTNeoXKFACEigenLayer
+    from kfac.gpt_neox.modules import GPTNeoXLinearModuleHelper
+    from kfac.layers.eigen import KFACEigenLayer
+    from kfac.layers.modules import LinearModuleHelper
+    rng = ctx.rng
+    for it in range(ctx.budget(10, 80)):
+        par = rng.choice(['col', 'row'])
+        mp = rng.choice([2, 2, 3, 4])
+        primary = rng.randrange(mp)
+        bias = rng.random() < 0.6
+        gdt = rng.choice([torch.bfloat16, torch.bfloat16, torch.float16])
+        fin = rng.choice([2, 3, 5]) * (mp if par == 'row' else 1)
+        fout = rng.choice([2, 3, 4]) * (mp if par == 'col' else 1)
+        a, g = fin + int(bias), fout
+        gen = torch.Generator().manual_seed(ctx.seed * 977 + it)
+        Qa = torch.linalg.qr(torch.randn(a, a, generator=gen))[0].float()
+        Qg = torch.linalg.qr(torch.randn(g, g, generator=gen))[0].float()
+        da = torch.rand(a, generator=gen).float() * 3
+        dg = torch.rand(g, generator=gen).float() * 3
+        wfull = (torch.randn(fout, fin, generator=gen) * 3).to(gdt)
+        bfull = (torch.randn(fout, generator=gen) * 3).to(gdt)
+        damping = rng.choice([0.01, 0.3])
+        case = {'stream': 'low-precision-layer', 'par': par, 'mp': mp, 'primary': primary, 'bias': bias, 'fin': fin, 'fout': fout,
+                'grad_dtype': str(gdt), 'damping': damping, 'seed': ctx.seed * 977 + it}
+        full = torch.nn.Linear(fin, fout, bias=bias).to(gdt)
+        full.weight.grad = wfull.clone()
+        if bias:
+            full.bias.grad = bfull.clone()
+        ref = KFACEigenLayer(LinearModuleHelper(full), tdc=TorchDistributedCommunicator(), inv_dtype=torch.float32)
+        ref.qa, ref.da, ref.qg, ref.dg = Qa.clone(), da.clone(), Qg.clone(), dg.clone()
+        ref.preconditioned_grad(damping=damping)
+        want = ref.grad.clone()
+
+        def prog(rank):
+            import torch.distributed as dist
+            w = simdist._tls.world
+            w.muted[rank] = True
+            grp = dist.new_group(list(range(mp)))
+            w.muted[rank] = False
+            if par == 'col':
+                n = fout // mp
+                m = torch.nn.Linear(fin, n, bias=bias).to(gdt)
+                m.weight.grad = wfull[rank * n:(rank + 1) * n].clone()
+                if bias:
+                    m.bias.grad = bfull[rank * n:(rank + 1) * n].clone()
+                parallelism = 'output'
+            else:
+                n = fin // mp
+                m = torch.nn.Linear(n, fout, bias=bias).to(gdt)
+                m.weight.grad = wfull[:, rank * n:(rank + 1) * n].clone()
+                if bias:
+                    m.bias.grad = bfull.clone()
+                parallelism = 'input'
+            hlp = GPTNeoXLinearModuleHelper(m, grp, parallelism)
+            lay = GPTNeoXKFACEigenLayer(hlp, parallelism=parallelism, model_parallel_group=grp,
+                                        tdc=TorchDistributedCommunicator(), inv_dtype=torch.float32, primary_rank=primary)
+            if rank == primary:
+                lay.qa, lay.da, lay.qg, lay.dg = Qa.clone(), da.clone(), Qg.clone(), dg.clone()
+            lay.preconditioned_grad(damping=damping)
+            return lay.grad.clone()
+
+        wd, res = simdist.run_world(mp, prog, seed=ctx.seed * 59 + it)
+        if wd.stalled or wd.exceptions or wd.errors:
+            ctx.fail(f'low-precision layer run failed: stalled={wd.stalled} exc={dict(list(wd.exceptions.items())[:1])} errors={wd.errors[:1]}',
+                     case, 'neox-lowprec-run')
+            continue
+        for r, got in enumerate(res):
+            if par == 'col':
+                n = fout // mp
+                exp = want[r * n:(r + 1) * n]
+            else:
+                n = fin // mp
+                exp = torch.cat([want[:, r * n:(r + 1) * n]] + ([want[:, fin:]] if bias else []), 1)
+            if got.dtype != exp.dtype or tuple(got.shape) != tuple(exp.shape) or not torch.equal(got, exp):
+                err = (got.float() - exp.float()).abs().max().item() if tuple(got.shape) == tuple(exp.shape) else float('nan')
+                ctx.fail(f'rank {r}: the {gdt} shard of the sharded layer differs from the same shard of the unsharded layer computed from the '
+                         f'same float32 eigen data (max abs difference {err:.3e}, dtype {got.dtype} vs {exp.dtype})', case, 'neox-lowprec-shard')
+                break
+        ctx.evaluations += 1
+        ctx.case(('lowprec', par, mp, primary, bias, fin, fout, str(gdt)), nontrivial=True)
+        ctx.count('lowprec-' + par)
+
+
 def gen(ctx, rng):
     while True:
         cfg = neoxsim.NCfg(rng)
@@ -204,6 +296,7 @@ def gen(ctx, rng):
 
 def run(ctx):
     exact_layer_stream(ctx)
+    lowprec_layer_stream(ctx)
     rng = ctx.rng
     # corpus -------------------------------------------------------------------------------------
     corpus = []
